@@ -38,6 +38,8 @@ Mixed4 == [n \in 1..4 |-> n <= 2]
 Mixed5 == [n \in 1..5 |-> n <= 3]
 Mixed6 == [n \in 1..6 |-> n <= 3]
 Def12 == {{1}, {1, 2}, {2}}
+Decl4 == [n \in 1..4 |-> FALSE]
+Decl5 == [n \in 1..5 |-> n <= 1]
 NoDef == {{}}
 AnyDef == SUBSET Nodes
 =============================================================================
